@@ -18,6 +18,6 @@ for vf in sorted(glob.glob(os.path.join(V, "harness/props/c*/verif.json"))):
                 fr.append(0.0); continue
             fr.append(p["labels"].get(fl["label"], 0) / p["evaluations"])
         if fr:
-            rows.append((min(fr) / fl["min"], pid, fl["part"], fl["label"], fl["min"], min(fr), len(fr)))
+            rows.append((min(fr) / max(fl["min"], 1e-9), pid, fl["part"], fl["label"], fl["min"], min(fr), len(fr)))
 for r in sorted(rows):
     print("%6.2f  %s %s/%s floor=%.3f min_observed=%.3f over %d runs" % r)
